@@ -198,4 +198,259 @@ theorem decodeNum_encodeNumRaw (i : Int) : decodeNum (encodeNumRaw i) = i := by
       rw [Nat.mod_add_div]
       omega
 
+/-! ### minimal encodings -/
+
+theorem isMin_snoc (a : Bytes) (x : UInt8) :
+    Core.isMinimallyEncoded (a ++ [x]) =
+      (if x.toNat % 128 ≠ 0 then true else (!a.isEmpty && decide ((lastByte a).toNat ≥ 128))) := by
+  induction a with
+  | nil => simp [Core.isMinimallyEncoded]
+  | cons y ys ih =>
+    cases ys with
+    | nil =>
+      simp only [List.cons_append, List.nil_append, Core.isMinimallyEncoded, lastByte, List.isEmpty_cons,
+        Bool.not_false, Bool.true_and]
+      by_cases h : x.toNat % 128 = 0 <;> simp [h]
+    | cons z zs =>
+      have : (y :: z :: zs) ++ [x] = y :: z :: (zs ++ [x]) := rfl
+      rw [this]
+      cases zs with
+      | nil =>
+        simp only [List.nil_append, Core.isMinimallyEncoded, lastByte, List.isEmpty_cons]
+        by_cases h : x.toNat % 128 = 0 <;> simp [h]
+      | cons w ws =>
+        simp only [List.cons_append, Core.isMinimallyEncoded]
+        simp only [List.cons_append] at ih
+        rw [ih]; simp [lastByte]
+
+theorem pow256_lt_of (j k x : Nat) (h1 : 128 * 256 ^ j ≤ x) (h2 : x < 128 * 256 ^ k) : j < k := by
+  by_cases h : j < k
+  · exact h
+  · have : 256 ^ k ≤ 256 ^ j := Nat.pow_le_pow_right (by omega) (by omega)
+    omega
+
+theorem pow256_succ (k : Nat) : 256 ^ (k + 1) = 256 * 256 ^ k := by
+  rw [Nat.pow_succ, Nat.mul_comm]
+
+/-- the size `encode_num` chooses, with both bounds -/
+theorem encode_size' (a : Nat) (h : 0 < a) :
+    ∃ k, (natBitLength a + 1 + 7) / 8 = k + 1 ∧ a < 128 * 256 ^ k ∧ (k = 0 ∨ 128 * 256 ^ (k - 1) ≤ a) := by
+  obtain ⟨h1, h2, h3⟩ := natBitLength_spec a h
+  refine ⟨(natBitLength a + 1 + 7) / 8 - 1, by omega, ?_, ?_⟩
+  · rw [← two_pow_top]
+    exact Nat.lt_of_lt_of_le h1 (Nat.pow_le_pow_right (by omega) (by omega))
+  · by_cases hk : (natBitLength a + 1 + 7) / 8 - 1 = 0
+    · left; exact hk
+    · right
+      have e : (natBitLength a + 1 + 7) / 8 - 1 - 1 + 1 = (natBitLength a + 1 + 7) / 8 - 1 := by omega
+      rw [← two_pow_top]
+      refine Nat.le_trans (Nat.pow_le_pow_right (by omega) ?_) h2
+      omega
+
+theorem lastByte_lower (a : Bytes) (h : a ≠ []) :
+    ofLE a = ofLE a.dropLast + 256 ^ (a.length - 1) * (lastByte a).toNat := by
+  obtain ⟨i, x, rfl⟩ := exists_init_last a h
+  simp [lastByte_append_singleton, ofLE_snoc]
+
+
+/-- the magnitude and sign `decode_num` reads off `a ++ [x]` -/
+theorem decodeNum_snoc' (a : Bytes) (x : UInt8) :
+    decodeNum (a ++ [x]) =
+      if x.toNat ≥ 128 then - ((ofLE a + 256 ^ a.length * (x.toNat % 128) : Nat) : Int)
+      else ((ofLE a + 256 ^ a.length * (x.toNat % 128) : Nat) : Int) := by
+  rw [decodeNum_snoc]
+  have hx : x.toNat < 256 := x.toNat_lt
+  split
+  · have : x.toNat - 128 = x.toNat % 128 := by omega
+    rw [this]
+  · have : x.toNat = x.toNat % 128 := by omega
+    rw [← this]
+
+/-- bounds on the value of a non-empty string from its last byte -/
+theorem ofLE_last_bounds (a : Bytes) (h : a ≠ []) :
+    256 ^ (a.length - 1) * (lastByte a).toNat ≤ ofLE a ∧
+    ofLE a < 256 ^ (a.length - 1) * ((lastByte a).toNat + 1) := by
+  obtain ⟨i, x, rfl⟩ := exists_init_last a h
+  have hi := ofLE_lt i
+  simp only [lastByte_append_singleton, ofLE_snoc, List.length_append, List.length_cons, List.length_nil,
+    Nat.add_sub_cancel, Nat.zero_add]
+  rw [Nat.mul_add, Nat.mul_one]
+  omega
+
+/-- which length `encode_num` picks for the value decoded from `a ++ [x]`, against the length of `a ++ [x]` -/
+theorem size_vs_minimal (a : Bytes) (x : UInt8) (k' : Nat)
+    (hpos : 0 < ofLE a + 256 ^ a.length * (x.toNat % 128))
+    (hlt : ofLE a + 256 ^ a.length * (x.toNat % 128) < 128 * 256 ^ k')
+    (hlow : k' = 0 ∨ 128 * 256 ^ (k' - 1) ≤ ofLE a + 256 ^ a.length * (x.toNat % 128)) :
+    (Core.isMinimallyEncoded (a ++ [x]) = true → k' = a.length) ∧
+    (Core.isMinimallyEncoded (a ++ [x]) = false → k' < a.length) := by
+  have hm := ofLE_lt a
+  have hP := pow_256_pos a.length
+  have hr : x.toNat % 128 < 128 := Nat.mod_lt _ (by omega)
+  have hup : 256 ^ a.length * (x.toNat % 128) ≤ 256 ^ a.length * 127 := Nat.mul_le_mul_left _ (by omega)
+  rw [isMin_snoc]
+  by_cases hz : x.toNat % 128 = 0
+  · -- the last byte carries no magnitude: the one before decides
+    simp only [hz, ne_eq, not_true_eq_false, if_false, Nat.mul_zero, Nat.add_zero] at *
+    have hne : a ≠ [] := by
+      intro e; subst e; simp [ofLE] at hpos
+    obtain ⟨b1, b2⟩ := ofLE_last_bounds a hne
+    have hk : 1 ≤ a.length := by
+      cases a with
+      | nil => exact absurd rfl hne
+      | cons _ _ => simp
+    have hpk : 256 ^ a.length = 256 * 256 ^ (a.length - 1) := by
+      have : a.length = (a.length - 1) + 1 := by omega
+      conv => lhs; rw [this, pow256_succ]
+    have hemp : a.isEmpty = false := by
+      cases a with
+      | nil => exact absurd rfl hne
+      | cons _ _ => rfl
+    simp only [hemp, Bool.not_false, Bool.true_and, decide_eq_true_eq, decide_eq_false_iff_not]
+    constructor
+    · intro hl
+      have lo : 128 * 256 ^ (a.length - 1) ≤ ofLE a := by
+        have : 256 ^ (a.length - 1) * 128 ≤ 256 ^ (a.length - 1) * (lastByte a).toNat :=
+          Nat.mul_le_mul_left _ hl
+        omega
+      have g1 : a.length - 1 < k' := pow256_lt_of _ _ _ lo hlt
+      rcases hlow with h0 | h1
+      · omega
+      · have : k' - 1 < a.length := by
+          by_cases hh : k' - 1 < a.length
+          · exact hh
+          · have : 256 ^ a.length ≤ 256 ^ (k' - 1) := Nat.pow_le_pow_right (by omega) (by omega)
+            omega
+        omega
+    · intro hl
+      have hi : ofLE a < 128 * 256 ^ (a.length - 1) := by
+        have : 256 ^ (a.length - 1) * ((lastByte a).toNat + 1) ≤ 256 ^ (a.length - 1) * 128 :=
+          Nat.mul_le_mul_left _ (by omega)
+        omega
+      rcases hlow with h0 | h1
+      · omega
+      · have := pow256_lt_of _ _ _ h1 hi
+        omega
+  · -- the last byte carries magnitude bits: always minimal
+    simp only [hz, ne_eq, not_false_eq_true, if_true, true_implies, Bool.true_eq_false, false_implies, and_true]
+    have lo : 256 ^ a.length ≤ ofLE a + 256 ^ a.length * (x.toNat % 128) := by
+      have : 256 ^ a.length * 1 ≤ 256 ^ a.length * (x.toNat % 128) := Nat.mul_le_mul_left _ (by omega)
+      omega
+    have g1 : a.length ≤ k' := by
+      by_cases hh : a.length ≤ k'
+      · exact hh
+      · have : 256 ^ (k' + 1) ≤ 256 ^ a.length := Nat.pow_le_pow_right (by omega) (by omega)
+        rw [pow256_succ] at this
+        omega
+    rcases hlow with h0 | h1
+    · omega
+    · have hi : ofLE a + 256 ^ a.length * (x.toNat % 128) < 128 * 256 ^ a.length := by omega
+      have := pow256_lt_of _ _ _ h1 hi
+      omega
+
+/-- btclib's minimality test (`encode_num(decode_num(b)) == b`) is Core's (`CScriptNum` constructor) -/
+theorem encode_decode_iff_minimal (b : Bytes) :
+    encodeNumRaw (decodeNum b) = b ↔ Core.isMinimallyEncoded b = true := by
+  by_cases hb : b = []
+  · subst hb; simp [decodeNum, encodeNumRaw, Core.isMinimallyEncoded]
+  · obtain ⟨a, x, rfl⟩ := exists_init_last b hb
+    have hx : x.toNat < 256 := x.toNat_lt
+    have hm := ofLE_lt a
+    have hP := pow_256_pos a.length
+    rw [decodeNum_snoc']
+    generalize hmag : ofLE a + 256 ^ a.length * (x.toNat % 128) = mag
+    by_cases h0 : mag = 0
+    · -- the value is zero: `encode_num` writes the empty vector, and Core calls every other spelling non-minimal
+      subst h0
+      have e : (if x.toNat ≥ 128 then -((0 : Nat) : Int) else ((0 : Nat) : Int)) = 0 := by split <;> simp
+      rw [e]
+      have hz : x.toNat % 128 = 0 := by
+        by_cases hz : x.toNat % 128 = 0
+        · exact hz
+        · have : 256 ^ a.length * 1 ≤ 256 ^ a.length * (x.toNat % 128) := Nat.mul_le_mul_left _ (by omega)
+          omega
+      have hma : ofLE a = 0 := by omega
+      have hnm : Core.isMinimallyEncoded (a ++ [x]) = false := by
+        rw [isMin_snoc]
+        simp only [hz, ne_eq, not_true_eq_false, if_false]
+        cases ha : a with
+        | nil => rfl
+        | cons y ys =>
+          have hne : a ≠ [] := by rw [ha]; exact List.cons_ne_nil _ _
+          obtain ⟨b1, _⟩ := ofLE_last_bounds a hne
+          rw [hma] at b1
+          have hp := pow_256_pos (a.length - 1)
+          have : (lastByte a).toNat = 0 := by
+            by_cases hl : (lastByte a).toNat = 0
+            · exact hl
+            · have : 256 ^ (a.length - 1) * 1 ≤ 256 ^ (a.length - 1) * (lastByte a).toNat :=
+                Nat.mul_le_mul_left _ (by omega)
+              omega
+          rw [← ha]; simp [this]
+      simp [encodeNumRaw, hnm]
+    · have hpos : 0 < mag := by omega
+      obtain ⟨k', hk, hlt, hlow⟩ := encode_size' mag hpos
+      have hsz := size_vs_minimal a x k' (by rw [hmag]; exact hpos) (by rw [hmag]; exact hlt) (by rw [hmag]; exact hlow)
+      -- what `encode_num` writes for the decoded value
+      have henc : encodeNumRaw (if x.toNat ≥ 128 then -((mag : Nat) : Int) else ((mag : Nat) : Int))
+          = leBytes (k' + 1) (mag + (if x.toNat ≥ 128 then 128 * 256 ^ k' else 0)) := by
+        unfold encodeNumRaw
+        by_cases hn : x.toNat ≥ 128
+        · simp only [hn, if_true]
+          have e0 : ¬ (-(mag : Int) = 0) := by omega
+          have e1 : (-(mag : Int)).natAbs = mag := by omega
+          have e2 : (-(mag : Int)) < 0 := by omega
+          simp only [e0, if_false, e1, e2, if_true, hk, two_pow_top]
+        · simp only [hn, if_false]
+          have e0 : ¬ ((mag : Int) = 0) := by omega
+          have e1 : ((mag : Int)).natAbs = mag := by omega
+          have e2 : ¬ ((mag : Int) < 0) := by omega
+          simp only [e0, if_false, e1, e2, hk, Nat.add_zero]
+      rw [henc]
+      constructor
+      · intro heq
+        have hlen : k' + 1 = a.length + 1 := by
+          have := congrArg List.length heq
+          simpa using this
+        cases hmin : Core.isMinimallyEncoded (a ++ [x]) with
+        | true => rfl
+        | false => have := hsz.2 hmin; omega
+      · intro hmin
+        have hkk := hsz.1 hmin
+        subst hkk
+        have hval : mag + (if x.toNat ≥ 128 then 128 * 256 ^ a.length else 0) = ofLE (a ++ [x]) := by
+          rw [ofLE_snoc, ← hmag]
+          split
+          · have : x.toNat = x.toNat % 128 + 128 := by omega
+            conv => rhs; rw [this, Nat.mul_add]
+            rw [Nat.mul_comm (256 ^ a.length) 128]; omega
+          · have : x.toNat = x.toNat % 128 := by omega
+            rw [← this]; omega
+        rw [hval]
+        have := leBytes_ofLE (a ++ [x])
+        simpa using this
+
+/-- T1: `_to_num` is Core's `CScriptNum(vch, fRequireMinimal, nMaxNumSize)`: same refusals, same value -/
+theorem toNum_eq_scriptNum (b : Bytes) (minimal : Bool) (maxSize : Nat) :
+    (toNum b minimal maxSize).toOption = (Core.scriptNum b minimal maxSize).toOption := by
+  unfold toNum Core.scriptNum
+  by_cases hl : b.length > maxSize
+  · simp [hl, Except.toOption]
+  · simp only [hl, if_false]
+    cases minimal with
+    | false => simp [Except.toOption, decodeNum_eq_setVch]
+    | true =>
+      simp only [Bool.true_and]
+      cases hmin : Core.isMinimallyEncoded b with
+      | true =>
+        have := (encode_decode_iff_minimal b).mpr hmin
+        rw [decodeNum_eq_setVch] at this
+        simp [this, Except.toOption, decodeNum_eq_setVch]
+      | false =>
+        have : ¬ encodeNumRaw (decodeNum b) = b := by
+          intro e; have := (encode_decode_iff_minimal b).mp e; rw [hmin] at this; cases this
+        rw [decodeNum_eq_setVch] at this
+        simp [this, Except.toOption, decodeNum_eq_setVch]
+
+
 end Btc.Script
